@@ -6,4 +6,5 @@ mkdir -p .deps
 if [ ! -d .deps/networkx ]; then
   /venv/bin/pip install -q --no-index --find-links /opt/veriftools/wheels --target .deps networkx >/dev/null 2>&1 || echo "networkx not installed (SplineMethod slices will be skipped)"
 fi
+python3 tools/extract.py > /dev/null   # regenerate lean/RockitModel/Generated/*.lean from /repo
 cd lean && lake build 2>&1 | tail -3
